@@ -107,7 +107,7 @@ def stepAgg (st : St) (cmd : List String) (got : String) : Option (St × Verdict
     match k.toNat?, st.bm[x]? with
     | some kk, some _ =>
       if kk < 1 || kk > 256 then some (skipV st got)
-      else if !(mode == [] || mode == ["readfrom"] || mode == ["frombuffer"] || mode == ["mixed"]) then some (skipV st got)
+      else if !(mode == [] || mode == ["readfrom"] || mode == ["frombuffer"] || mode == ["mixed"] || mode == ["afterfail"]) then some (skipV st got)
       else some (st, expect "ok" got)
     | _, _ => some (skipV st got)
   | op :: y :: rest =>
